@@ -56,9 +56,9 @@ type userRec struct {
 var w struct {
 	dir   string
 	self  string
-	srv   [2]*sshsim.Server
+	srv   [3]*sshsim.Server // 0, 1: plain host keys; 2: presents a host certificate signed by a per-worker CA
 	users [2]userRec
-	kh    [2]map[string]string // per server: has | other | empty -> path
+	kh    [3]map[string]string // per server: known-hosts state -> path
 	cfg   string
 	seq   int
 	sshAt string
@@ -96,13 +96,23 @@ func setup() error {
 		w.users[i] = userRec{name: names[i], pw: fmt.Sprintf("Pw%d+%x/Zq", i, sshsim.FreshPublicKey().Marshal()[20:28]), key: k}
 	}
 	for i := range w.srv {
-		s, err := sshsim.NewServer()
+		var s *sshsim.Server
+		var err error
+		if i == 2 {
+			s, err = sshsim.NewCertServer()
+		} else {
+			s, err = sshsim.NewServer()
+		}
 		if err != nil {
 			return err
 		}
 		w.srv[i] = s
 		w.kh[i] = map[string]string{}
-		for _, kind := range []string{"has", "other", "empty"} {
+		hostPat := strings.Fields(sshsim.KnownHostsLine(s.Port(), s.PlainHostKey()))[0] // "[127.0.0.1]:port"
+		for _, kind := range []string{"has", "other", "empty", "revoked", "revoked-other", "hashed", "cert-ca", "cert-other-ca", "cert-empty", "cert-plain-key"} {
+			if (i == 2) != strings.HasPrefix(kind, "cert-") {
+				continue
+			}
 			p := filepath.Join(w.dir, fmt.Sprintf("known_hosts_%d_%s", i, kind))
 			var body string
 			switch kind {
@@ -112,6 +122,19 @@ func setup() error {
 				body = "other.example.org " + f[1] + " " + f[2] + "\n" + sshsim.KnownHostsLine(s.Port(), s.HostKey())
 			case "other":
 				body = sshsim.KnownHostsLine(s.Port(), sshsim.FreshPublicKey())
+			case "revoked": // the matching entry AND a revocation of that very key
+				body = sshsim.KnownHostsLine(s.Port(), s.HostKey()) + sshsim.MarkedKnownHostsLine("revoked", "*", s.HostKey())
+			case "revoked-other": // a revocation of some other key next to the matching entry
+				body = sshsim.MarkedKnownHostsLine("revoked", "*", sshsim.FreshPublicKey()) + sshsim.KnownHostsLine(s.Port(), s.HostKey())
+			case "hashed": // hashed host name form
+				f := strings.Fields(sshsim.KnownHostsLine(22, sshsim.FreshPublicKey()))
+				body = "other.example.org " + f[1] + " " + f[2] + "\n" + sshsim.HashedKnownHostsLine(s.Port(), s.HostKey())
+			case "cert-ca": // the CA that signed the server's host certificate
+				body = sshsim.MarkedKnownHostsLine("cert-authority", hostPat, s.CAKey())
+			case "cert-other-ca": // an unrelated CA
+				body = sshsim.MarkedKnownHostsLine("cert-authority", hostPat, sshsim.FreshPublicKey())
+			case "cert-plain-key": // only the certified key itself, as a plain entry
+				body = sshsim.KnownHostsLine(s.Port(), s.PlainHostKey())
 			}
 			if err := os.WriteFile(p, []byte(body), 0o600); err != nil {
 				return err
@@ -173,7 +196,23 @@ type observed struct {
 	SSHBinary string         `json:"ssh_binary,omitempty"`
 }
 
-func (c Cell) expectConnect() bool { return !c.Strict || c.KH == "has" }
+// expect: "connect" | "refuse" | "either". A host certificate whose CA is not listed while the
+// certified key itself is listed as a plain entry ("cert-plain-key") is accepted either way: the
+// statement says "only if the host key matches the file" - the key does match, so connecting is
+// allowed, and refusing is never a violation of "only if". Observed: crypto/ssh (standard) refuses,
+// OpenSSH (system) retries with the plain key and connects.
+func (c Cell) expect() string {
+	if !c.Strict {
+		return "connect"
+	}
+	switch c.KH {
+	case "has", "revoked-other", "hashed", "cert-ca":
+		return "connect"
+	case "cert-plain-key":
+		return "either"
+	}
+	return "refuse"
+}
 
 func (c Cell) label() string {
 	s := "nostrict"
@@ -329,7 +368,7 @@ func runReal(c Cell) mon.Result {
 	}
 	var served []*sshsim.Served
 	var smu sync.Mutex
-	var c0 [2]int64
+	var c0 [3]int64
 	for i, s := range w.srv {
 		for _, x := range w.users {
 			s.SetAccount(x.name, nil)
@@ -372,7 +411,7 @@ func runReal(c Cell) mon.Result {
 	}
 	sshsim.ReapPid(pid, true, 5*time.Second)
 	// let the server finish logging the connection (it logs "disconnect" last)
-	target, other := w.srv[c.Srv], w.srv[1-c.Srv]
+	target := w.srv[c.Srv]
 	deadline := time.Now().Add(3 * time.Second)
 	for time.Now().Before(deadline) {
 		ev := target.EventsSince(c0[c.Srv])
@@ -391,7 +430,14 @@ func runReal(c Cell) mon.Result {
 		time.Sleep(2 * time.Millisecond)
 	}
 	ob.Events = target.EventsSince(c0[c.Srv])
-	ob.OtherSrv = other.EventsSince(c0[1-c.Srv])
+	otherPort := 0
+	for i, s := range w.srv {
+		if i != c.Srv {
+			if ev := s.EventsSince(c0[i]); len(ev) > 0 {
+				ob.OtherSrv, otherPort = append(ob.OtherSrv, ev...), s.Port()
+			}
+		}
+	}
 	smu.Lock()
 	for _, sv := range served {
 		sv.Stop()
@@ -427,7 +473,7 @@ func runReal(c Cell) mon.Result {
 		}
 	}
 	if len(ob.OtherSrv) > 0 {
-		return viol(c, "c14/"+c.Transport+"/wrong-port", ob, "the server on port %d (not the configured port %d) saw a connection", other.Port(), target.Port())
+		return viol(c, "c14/"+c.Transport+"/wrong-port", ob, "the server on port %d (not the configured port %d) saw a connection", otherPort, target.Port())
 	}
 	// the argument list (the password never travels on the command line); reported after the
 	// connection oracle so that a wrong outcome is the primary complaint
@@ -436,7 +482,16 @@ func runReal(c Cell) mon.Result {
 		argRes = checkArgs(c, ob.OpenArgs, ob)
 		obs["arglists_checked"]++
 	}
-	if !c.expectConnect() {
+	want := c.expect()
+	if want == "either" { // not prescribed: only the consistency of what happened is judged
+		want = "connect"
+		if openErr != nil {
+			want = "refuse"
+		}
+		tags = append(tags, "cert+plain-key-only:"+c.Transport+"="+want)
+		obs["outcomes_not_prescribed"]++
+	}
+	if want == "refuse" {
 		obs["expected_refusals"]++
 		if openErr == nil {
 			return viol(c, "c14/"+c.Transport+"/connected-without-matching-host-key:"+c.KH, ob,
@@ -563,7 +618,7 @@ func runArgv(c Cell) mon.Result {
 	if err := sshsim.WrapperScript(script, w.self, flags); err != nil {
 		return mon.Result{Verdict: mon.Inconclusive, Detail: "wrapper script: " + err.Error()}
 	}
-	var c0 [2]int64
+	var c0 [3]int64
 	for i, s := range w.srv {
 		c0[i] = s.ConnCount()
 	}
@@ -677,6 +732,30 @@ func gen(tier string, seed int64) []mon.Case {
 			}
 		}
 	}
+	// unusual but legal known-hosts contents: @revoked lines, hashed host names, host certificates
+	for rep := 0; rep < reps; rep++ {
+		k := 0
+		addX := func(c Cell) {
+			c.Kind, c.Rep, c.ReadSize, c.User = "real", rep, 8192, (k+rep)%2
+			cs = append(cs, mon.MkCase(fmt.Sprintf("c14/r%d/x%02d-%s.srv%d", rep, k, strings.ReplaceAll(c.label(), "/", "."), c.Srv), c))
+			k++
+		}
+		for _, tr := range []string{"standard", "system"} {
+			for _, auth := range []string{"password", "key"} {
+				for _, kh := range []string{"revoked", "revoked-other", "hashed"} {
+					for srv := 0; srv < 2; srv++ {
+						addX(Cell{Transport: tr, Strict: true, KH: kh, Auth: auth, Srv: srv})
+					}
+				}
+				for _, kh := range []string{"cert-ca", "cert-other-ca", "cert-empty", "cert-plain-key"} {
+					addX(Cell{Transport: tr, Strict: true, KH: kh, Auth: auth, Srv: 2})
+				}
+				// controls: checking off
+				addX(Cell{Transport: tr, Strict: false, KH: "revoked", Auth: auth, Srv: 0})
+				addX(Cell{Transport: tr, Strict: false, KH: "cert-other-ca", Auth: auth, Srv: 2})
+			}
+		}
+	}
 	// the known-hosts file changes between opens (same path, one process)
 	for rep := 0; rep < reps; rep++ {
 		k := 0
@@ -703,7 +782,9 @@ func init() {
 		Rule: "Full factorial {standard, system with the real ssh client} x {strict (default), WithAuthNoStrictKey} x known-hosts {has the server key, has another key, " +
 			"empty file, not given} x auth {password, key file, both} x 2 users x 2 server instances (ports) = 192 cells per repetition against in-process SSH servers with fresh " +
 			"ed25519 host keys, plus 192 stand-in cells (system transport started on a stand-in binary that dumps its argv/environment; x {no ssh config, ssh config file}). " +
-			"Plus 32 sequences per repetition in which ONE known-hosts path changes its contents between three consecutive strict opens in one process " +
+			"Plus 48 cells per repetition with unusual but legal known-hosts contents on both transports: @revoked line for the server's key (must fail) / for another key (must connect), " +
+			"hashed host name entry (must connect), and a third server instance presenting a host CERTIFICATE signed by a per-worker CA: @cert-authority with that CA (must connect), " +
+			"unrelated CA or empty file (must fail), only the certified key as a plain entry (outcome not prescribed, recorded). Plus 32 sequences per repetition in which ONE known-hosts path changes its contents between three consecutive strict opens in one process " +
 			"(has>other>has, has>empty>has, empty>has>empty, other>has>other; both transports; fresh Transport object per open and one re-used object; transport level, key auth): " +
 			"every open must be decided by the file's contents at that moment. Non-trivial = strict host-key checking is on in the cell. Distinct = distinct descriptor.",
 		Assumptions: []string{
